@@ -235,6 +235,14 @@ def _islice(it, a, kw, node):
     return out
 
 
+def _staticmethod(it, a, kw, node):
+    return _I().DescriptorWrap("staticmethod", a[0])
+
+
+def _classmethod(it, a, kw, node):
+    return _I().DescriptorWrap("classmethod", a[0])
+
+
 def _hash(it, a, kw, node):
     # an opaque, non-injective integer (for str/bytes it also differs between processes)
     return Term("hash", (_I()._hashable(a[0]),), "int")
@@ -733,7 +741,7 @@ def _reduce(it, a, kw, node):
 _NOINIT = object()
 
 _TABLE = {
-    "len": _len, "isinstance": _isinstance, "type": _type, "hasattr": _hasattr, "int": _int, "getattr": _getattr, "iter": _iter, "next": _next, "bin": _bin, "hash": _hash, "itertools.islice": _islice, "struct.Struct": _struct_Struct, "struct.pack": _struct_pack,
+    "len": _len, "isinstance": _isinstance, "type": _type, "hasattr": _hasattr, "int": _int, "getattr": _getattr, "iter": _iter, "next": _next, "bin": _bin, "hash": _hash, "staticmethod": _staticmethod, "classmethod": _classmethod, "itertools.islice": _islice, "struct.Struct": _struct_Struct, "struct.pack": _struct_pack,
     "bool": _bool, "range": _range, "zip": _zip, "enumerate": _enumerate, "reversed": _reversed,
     "list": _list, "tuple": _tuple, "sum": _sum, "all": _all, "any": _any, "max": _max, "min": _min,
     "pow": _pow, "bytes": _bytes, "bytearray": _bytearray, "set": _set, "ord": _ord, "repr": _repr,
